@@ -187,7 +187,7 @@ def conf_text(vals):
 
 def run(ck):
     v = H.build_exec_harness('c08-ts-asan')
-    h_conf = build.link_harness(v, os.path.join(v['dir'], 'h_conf'), [os.path.join(NATIVE, 'h_conf.c'), os.path.join(NATIVE, 'seam.c')])
+    h_conf = build.link_harness(v, os.path.join(v['dir'], 'h_conf'), [os.path.join(NATIVE, 'h_conf.c'), os.path.join(NATIVE, 'seam.c'), os.path.join(NATIVE, 'nonreentrant.c')])
     outs = known_outputs(v['repo'])
     files = gen_files(outs, ck.tier)
     nums = gen_numbers(ck.tier)
@@ -249,6 +249,21 @@ def run(ck):
             if v2 < v1:
                 ck.violation('C08:not_monotone:%s:%d%s->%d%s' % (opt.decode(), n1, suf.decode(), n2, suf.decode()), {'option': opt.decode(), 'n1': n1, 'v1': v1, 'n2': n2, 'v2': v2})
                 break
+    # another build: error logging ON by default (./configure --enable-error-logging) - an unparsable value keeps THAT default
+    ve = H.build_exec_harness('c08-errlogon-asan', cfg_def=['SNOOPY_CONF_ERROR_LOGGING_ENABLED 1'])
+    h_conf_e = build.link_harness(ve, os.path.join(ve['dir'], 'h_conf'), [os.path.join(NATIVE, 'h_conf.c'), os.path.join(NATIVE, 'seam.c'), os.path.join(NATIVE, 'nonreentrant.c')])
+    efiles = [(label, c) for (label, c) in files if b'error_logging' in (c or b'') or label in ('absent', 'empty', 'garbage')]
+    eres, eaborts = run_resilient(h_conf_e, os.path.join(ck.workdir, 'errlogon'), [c for _, c in efiles])
+    for pos, rc, reports in eaborts:
+        ck.violation('C08:abort:build=error_logging_default_on', {'file': (efiles[pos][1] or b'').decode('latin-1')[:400] if pos < len(efiles) else None, 'rc': rc, 'sanitizer': reports[:1]})
+    for (label, content), g in zip(efiles, eres):
+        if g is None:
+            continue
+        evals += 1
+        exp, loose = refini.parse(content or b'', outs, defaults={b'error_logging': b'yes'})
+        outcomes.add(('errlog_default_on', g.get(b'error_logging')))
+        if b'error_logging' not in loose and g.get(b'error_logging') != exp[b'error_logging']:
+            ck.violation('C08:value:error_logging:build=error_logging_default_on:%s' % label[:90], {'file': (content or b'').decode('latin-1')[:500], 'got': g.get(b'error_logging', b'?').decode(), 'want': exp[b'error_logging'].decode()})
     # caller states: the parsed values must not depend on the ambient errno or on descriptor 0 being closed when the call is made
     # (differential: same file, plain state - which was compared with the reference above)
     plain = {}
@@ -264,6 +279,12 @@ def run(ck):
         keep |= set(c for (opt, suf, n, c) in numfiles if n in edge)
         sub = [c for c in plain if c in keep]
     STATES = {'errno=ERANGE': {'VERIF_CONF_ERRNO': '34'}, 'errno=EINTR': {'VERIF_CONF_ERRNO': '4'}, 'errno=ENOENT': {'VERIF_CONF_ERRNO': '2'}, 'fd0_closed': {'VERIF_CONF_CLOSE0': '1'}}
+    from engine import locale8
+    loc = locale8.build_turkish_rules_locale(os.path.join(ck.workdir, 'locale'))
+    if loc:
+        STATES['locale_with_turkish_case_rules'] = {'LOCPATH': loc[0], 'VERIF_CONF_LOCALE': loc[1]}
+    else:
+        ck.assumptions.append('localedef could not build the Turkish-rules locale: that caller state was not exercised')
     sjobs = []
     for sn, senv in STATES.items():
         k = max(1, (len(sub) + 7) // 8)
